@@ -75,9 +75,10 @@ def rotation_matrix(alpha, beta, gamma, radians = True):
 
     """
     if not radians:
-        alpha *= pi/180.
-        beta *= pi/180.
-        gamma *= pi/180.
+        # (not in place: the angles may be the caller's arrays)
+        alpha = alpha * (pi/180.)
+        beta = beta * (pi/180.)
+        gamma = gamma * (pi/180.)
 
     ca = cos(alpha)
     sa = sin(alpha)
